@@ -25,19 +25,26 @@ def runMask (args : List String) : Res :=
     | _ => bad "key"
   | _ => bad "mask-args"
 
-/-- `win <bits|off> <chunk,chunk,…>` -> window contents after every write -/
+/-- `win <bits|off> <item,item,…>` -> window contents after every item; an item is a hex chunk
+(a write) or `R` (the window's slice goes back to its pool, as at the end of a connection, and a
+new window is initialised from the same pool: it must start empty) -/
 def runWin (args : List String) : Res :=
   match args with
   | [bits, chunks] =>
     let w0 := if bits == "off" then Win.disabled else Win.init bits.toNat!
-    let ps := parseHexList chunks
-    let step := fun (acc : Win × List String × List String × Bytes × Bool) (p : Bytes) =>
+    let items := if chunks == "." then [] else chunks.splitOn ","
+    let step := fun (acc : Win × List String × List String × Bytes × Bool) (it : String) =>
       let (w, outs, brs, hist, ok) := acc
-      let w' := w.write p
-      let hist' := hist ++ p
-      let want := if w.enabled then lastN w.size hist' else []
-      (w', toHex w'.dict :: outs, Win.branch w p :: brs, hist', ok && w'.dict == want)
-    let (_, outs, brs, _, ok) := ps.foldl step (w0, [], [], [], true)
+      if it == "R" then
+        let w' := if w.enabled then Win.init bits.toNat! else w
+        (w', toHex w'.dict :: outs, "recycle" :: brs, [], ok && w'.dict.isEmpty)
+      else
+        let p := parseHex it
+        let w' := w.write p
+        let hist' := hist ++ p
+        let want := if w.enabled then lastN w.size hist' else []
+        (w', toHex w'.dict :: outs, Win.branch w p :: brs, hist', ok && w'.dict == want)
+    let (_, outs, brs, _, ok) := items.foldl step (w0, [], [], [], true)
     { out := ";".intercalate outs.reverse,
       spec := if ok then "ok" else "bad:window-not-suffix-of-history",
       tags := " ".intercalate brs.reverse }
